@@ -137,7 +137,11 @@ CHECKS["C02"] = {
     "technique": "exhaustive enumeration of wake-up-requesting programs x tick histories x run windows on the real simulation executor, each "
                  "run compared step by step with a discrete-event reference model (cycle-time set, per-node evaluation times, next_scheduled_time)",
     "design_ref": "DESIGN.md 2/C02",
-    "parts": [{"name": "wakeups", "exe": "c09_nested", "sources": ["c09_nested.cpp"], "sub": "c02", "shards": {"quick": 16, "thorough": 256}}],
+    "parts": [{"name": "wakeups", "exe": "c09_nested", "sources": ["c09_nested.cpp"], "sub": "c02", "shards": {"quick": 16, "thorough": 256}},
+              {"name": "singleshot", "exe": "c02_singleshot", "sources": ["c02_singleshot.cpp"], "shards": 4}],
+    "rule_keyed": "singleshot part: a node asking through the stateless SingleShotScheduler - start hook: every sequence of <= 2 requests from {now, +1, +2, +4}; first "
+                  "evaluation: none, +1 or +3 - next to an input ticking in every subset of 6 cycles; evaluated at every requested time and every input tick and at no other "
+                  "time (two forms in which the single graph slot loses a request are listed known findings, verified exactly).",
     "rule": "every program of 1-2 scripted self-scheduling sources (tick exactly at their history cycles through NodeScheduler) followed by <= K "
             "statements over {ticker (period,count) in {(1,3),(2,2),(3,2),(5,2)}, 1/2-input compute, stateful accumulator, nested_ of five bodies "
             "holding tickers at depth 1 and 2, far timers and consecutive-step timers}; x every tick pattern of the sources over T cycles; x run "
